@@ -11,6 +11,7 @@ from pyvc.types import BOOL, INT, REAL, STR, Atom, ObjT, Opt, SeqT
 from pyvc.values import NONE, OK, Val, mk_fresh
 
 from . import world
+from .c20_snapshot import snapshot_around_every_get
 from .common import ID, Types, base_registry
 
 PID = "C20"
@@ -23,6 +24,9 @@ COMPONENTS = {
                           ("pynenc.client_data_store.sqlite_client_data_store", "SQLiteClientDataStore")],
     "blocking_control": [("pynenc.orchestrator.mem_orchestrator", "MemBlockingControl"), ("pynenc.orchestrator.sqlite_orchestrator", "SQLiteBlockingControl")],
 }
+# domain objects whose methods the views (and the components) call: followed to the backend writes they can reach
+OBJECTS = {"Pynenc": ("pynenc.app", "Pynenc"), "Task": ("pynenc.task", "Task"), "Call": ("pynenc.call", "Call"), "LazyCall": ("pynenc.call", "LazyCall"),
+           "DistributedInvocation": ("pynenc.invocation.dist_invocation", "DistributedInvocation")}
 # fields that are caches of what the backend would return anyway (not part of any abstract view)
 CACHES = {"state_backend": ["_runner_context_cache", "_app_info_cache"], "client_data_store": ["_deserialized_cache", "_cache", "_lru"],
           "orchestrator": ["_blocking_control"]}
@@ -30,7 +34,10 @@ CACHES = {"state_backend": ["_runner_context_cache", "_app_info_cache"], "client
 
 def effect_obligations(ctx: RunCtx):
     """One obligation per GET route: every backend method reachable from the handler (through pynmon helper functions) is `reads`."""
-    eff = component_effects(ctx.src, COMPONENTS, CACHES)
+    eff0 = component_effects(ctx.src, COMPONENTS, CACHES)
+    from pyvc.effects import ObjectGraph
+    graph = ObjectGraph(ctx.src, OBJECTS, eff0, set(COMPONENTS))
+    eff = component_effects(ctx.src, COMPONENTS, CACHES, graph=graph)      # second pass: calls that leave a component (Task.from_id, app.get_task, ...)
     h = Handlers(ctx.src)
     out = []
     # properties / methods of the domain objects the views read through (invocation.status, .num_retries, call.arguments, ...)
@@ -57,6 +64,14 @@ def effect_obligations(ctx: RunCtx):
                 elif e[0] != "reads":
                     bad.append(f"{role}.{meth} writes ({'; '.join(e[1][:2])}) [{fm.split('.')[-1]}.{fname}:{ln}]")
         for fm, fname in h.reachable(m, name):
+            for alias, meth, ln in graph.calls_in(h.funcs[(fm, fname)]):
+                if ("obj:" + alias, meth) in seen:
+                    continue
+                seen.add(("obj:" + alias, meth))
+                why = graph.writes(alias, meth)
+                if why:
+                    bad.append(f"{alias}.{meth}() reaches a backend write ({why[0]}) [{fm.split('.')[-1]}.{fname}:{ln}]")
+        for fm, fname in h.reachable(m, name):
             for node in _ast.walk(h.funcs[(fm, fname)]):
                 if isinstance(node, _ast.Attribute) and node.attr in members and not node.attr.startswith("__") and \
                         not (isinstance(node.value, _ast.Name) and node.value.id in ("self", "request", "r", "response")):
@@ -78,7 +93,12 @@ def effect_obligations(ctx: RunCtx):
     sanity = [("route-table-enumerated", len(routes) >= 30), ("broker.retrieve_invocation-is-writes", eff["broker"]["retrieve_invocation"][0] == "writes"),
               ("orchestrator.auto_purge-is-writes", eff["orchestrator"]["auto_purge"][0] == "writes"),
               ("state_backend.set_result-is-writes", eff["state_backend"]["set_result"][0] == "writes"),
-              ("orchestrator.get_invocation_status_record-is-reads", eff["orchestrator"]["get_invocation_status_record"][0] == "reads")]
+              ("orchestrator.get_invocation_status_record-is-reads", eff["orchestrator"]["get_invocation_status_record"][0] == "reads"),
+              ("app.purge-reaches-a-backend-write", bool(graph.writes("Pynenc", "purge"))),
+              ("app.register_deferred_triggers-reaches-a-backend-write", bool(graph.writes("Pynenc", "register_deferred_triggers"))),
+              ("app.get_task-followed-into-Task.from_id-and-register_core_tasks", ("Task", "from_id") in graph.edges.get(("Pynenc", "get_task"), ()) and
+               ("Pynenc", "register_core_tasks") in graph.edges.get(("Task", "from_id"), ()) and
+               ("Pynenc", "_store_deferred_trigger") in graph.edges.get(("Pynenc", "task"), ()))]
     for n, ok in sanity:
         o = Obligation(name=f"{PID}/effects/sanity/{n}", kind="lemma", pc=[], goal=z3.BoolVal(ok), function="pyvc.effects")
         o.status, o.backend = ("discharged" if ok else "failed"), "ast-effect-analysis"
@@ -195,14 +215,16 @@ def build(ctx: RunCtx) -> Prop:
     return Prop(
         pid=PID, title="every GET route of the monitor reaches only `reads` methods of the backends (effect classes computed from the real ASTs); "
                        "the one handler that calls mutators, queue_view, is checked against 'queue unchanged on every exit'",
-        level="other", technique="effect/frame analysis over the real ASTs (call graph of every GET handler) + contract-based verification of queue_view over the C08 sequence contracts",
-        registry=reg, verify=verify, lemmas=[effect_obligations],
+        level="other", technique="effect/frame analysis over the real ASTs (call graph of every GET handler) + contract-based verification of queue_view over the C08 sequence contracts + bounded full read-out of the real backends around every GET of the real monitor",
+        registry=reg, verify=verify, lemmas=[effect_obligations], bounded=[snapshot_around_every_get],
         replayers={"*queue_view*": replay_queue_view},
         assumptions=["FastAPI runs exactly the decorated function for a GET request; template rendering has no effect on the monitored app",
                      "cache fields (runner-context cache, deserialised-object LRU, lazily created blocking control) are not part of any observable view",
                      "CREATE TABLE/INDEX IF NOT EXISTS and PRAGMA statements are view-neutral; dynamic SQL text is resolved through local string assignments only",
                      "invocation objects are read through attributes that do not wait for results (no `.result` on a handler path)"],
         trusted_base=["pyvc effect analysis (/verif/pyvc/effects.py)", "pyvc VC generator", "z3 5.1"],
-        not_decided="FastAPI/Starlette internals; effects hidden behind dynamic dispatch that the syntactic call graph cannot see.",
+        not_decided="FastAPI/Starlette internals; effects hidden behind dynamic dispatch that the syntactic call graph cannot see: object-level calls are followed "
+                    "only when the receiver's shape names the object (self, ...app, Task.x / Task(...), ...task, ...call, ...invocation); containers handed out by a "
+                    "helper method (not by a field expression) are not tracked as aliases.",
         min_obligations=35,
     )
